@@ -121,6 +121,24 @@ register("C08",
     "Trusted: engine/microai incl. its std::list/map/set model; cluster-bounded shapes are not interpreted (plain shapes only).",
     "abstract interpretation (object-level) of the constraint generator + guarded-by / loop-coverage rules",
     "DESIGN.md §5 C08")
+register("C10",
+    "Decides the immobility clauses structurally: a shiftable nudging segment is created for a first/last route segment only under the "
+    "option that allows it (with room and no fixed route), and for a segment carrying a checkpoint only under that option (entailment over "
+    "path conditions incl. early exits); a fixed segment's points are never written, a free segment writes the clamped solver position to "
+    "exactly one coordinate of exactly its own points (symbolic); fixed segments get the fixed weight/id, zig-zags the channel middle; no "
+    "function reachable from the nudging entry point changes the number of points of a route; low/high and above/below helpers stay mirror "
+    "images. Does not decide separation distances, channel-width reasoning or the ordering of nudged segments.",
+    "Trusted: clang AST/CFG/call graph; engine/microai; the displayRoute()/router accessors are abstracted by hooks.",
+    "guarded-by entailment with early-exit guards, symbolic evaluation of the position write-back, call-graph closure rule, mirror siblings",
+    "DESIGN.md §5 C10")
+register("C14",
+    "Weak but exact: along every path of doHOLA the padding applied to the caller's nodes sums to zero for core nodes and for non-root tree "
+    "nodes (abstract execution over polynomial padding sums), padding primitives add exactly (dw,dh) to every intended node, every routing "
+    "adapter of the pipeline is orthogonal, node dimensions are only written by the reviewed setters. Everything else the statement says "
+    "(no overlaps, routes avoid nodes, returned constraints satisfied) is a numerical pipeline result and is not decided.",
+    "Trusted: node classes (core nodes shared with the working copy; per-tree non-root node sets disjoint) as documented in hola.cpp.",
+    "abstract interpretation of doHOLA over an additive padding domain + who-writes / constructor-argument rules",
+    "DESIGN.md §5 C14")
 for _p, _r in {
  "C06": "equality of route costs between an incrementally edited router and a fresh one quantifies over run-time visibility-graph contents after arbitrary edit histories; no rule over code shape is a necessary condition of it",
  "C12": "tree-ness and terminal preservation of hyperedges are invariants of dynamically rewritten run-time graphs; not visible in code shape",
